@@ -23,6 +23,7 @@ Games ==
       [] Family = "gap5" -> DescribeAll("gap5", Gap5Games)
       [] Family = "forced" -> DescribeAll("forced", Pick(K, ForcedGames))
       [] Family = "degen" -> DescribeAll("degen", DegenGames)
+      [] Family = "jump1" -> DescribeAll("jump1", Pick(K, Jump1Games))
       [] Family = "zerow" -> DescribeAll("zerow", ZeroWGames)
       [] Family = "slow" -> DescribeAll("slow", Pick(K, SlowGames))
       [] Family = "bigrew" -> DescribeAll("bigrew", Pick(K, BigRewGames))
